@@ -53,12 +53,11 @@ def getIterDf (rows : List InRow) : Out :=
   let hasZero := rows.any (fun r => r.iter == 0)
   let hasFinal := rows.any (fun r => r.iter == FINAL)
   if !hasZero && hasFinal then
-    -- df = df[iters == FINAL]; df.at[0, 'ITERATION'] = 0  (label 0: the first row of the file if it was
-    -- kept, otherwise pandas appends a new row labelled 0 whose other cells are NaN)
+    -- df = df[iters == FINAL].copy(); df.iloc[0, ITERATION] = 0  (since /repo fix: the first kept row, by position)
     let kept := (indexed rows).filter (fun q => q.2.iter == FINAL)
     match kept with
-    | (0, _) :: rest => .ok (⟨0, some 0⟩ :: rest.map (fun q => ⟨q.2.iter, some q.1⟩))
-    | _ => .ok (kept.map (fun q => ⟨q.2.iter, some q.1⟩) ++ [⟨0, none⟩])
+    | (k, _) :: rest => .ok (⟨0, some k⟩ :: rest.map (fun q => ⟨q.2.iter, some q.1⟩))
+    | [] => .ok []
   else
     let finalObj : Obj := finalObjOf rows
     match lastWhere (fun r => r.iter ≥ 0) rows with
@@ -74,6 +73,14 @@ def getIterDf (rows : List InRow) : Out :=
           | none => base ++ [⟨n, none⟩]
         else base
       .ok (all.filter (fun o => o.iter ≥ 0))
+
+/-- The first branch as it was before the repair: `df.at[0, 'ITERATION'] = 0` addresses the *label* 0 — the first
+    row of the file if it was kept, otherwise pandas appends a new row labelled 0 whose other cells are NaN. -/
+def firstBranchOld (rows : List InRow) : List OutRow :=
+  let kept := (indexed rows).filter (fun q => q.2.iter == FINAL)
+  match kept with
+  | (0, _) :: rest => ⟨0, some 0⟩ :: rest.map (fun q => ⟨q.2.iter, some q.1⟩)
+  | _ => kept.map (fun q => ⟨q.2.iter, some q.1⟩) ++ [⟨0, none⟩]
 
 /-- `ExtTable.final_ofv`: OBJ of the (first) row -1000000000, else of the row of the largest
     iteration number. `none` = NaN or no row at all. -/
